@@ -247,12 +247,12 @@ theorem readText_bare_amp (T : Tbl) (late : Bool) (y : Nat) (Y : PStr) (h1 : isA
 /-- text round trip of `substitute_html5` for strings whose bare ampersands cannot start a reference -/
 theorem html5_text_roundtrip_gen (T : Tbl) (late : Bool) (hR : RepOK T (htmlRep T) T.particles)
     (h5 : Html5OK T = true) :
-    ∀ s, noBareRefStart T s = true → readText T late 0 (substHtml5 T s) = s := by
+    ∀ s, noBareRefStart T s = true → readText T late 0 (substHtml5Old T s) = s := by
   obtain ⟨hw, hd, hk, hamp⟩ := html5OK_spec h5
   have h38 : ∀ cs, firstMatch T.particles (38 :: cs) = none :=
     fun cs => firstMatch_none_of_head (fun p hp e => (hk p hp).2 (e ▸ (by simp [amp]))) cs
   intro s
-  unfold substHtml5 substHtml5With
+  unfold substHtml5Old
   rw [escapeEntities_eq_spec hw hd]
   generalize hn : s.length = n
   induction n using Nat.strongRecOn generalizing s with
